@@ -274,6 +274,94 @@ pub fn check_case_tagged(shape: &Shape, val: &Val, r: &mut Report, tag: Option<&
     }
 }
 
+/// wide value sets per leaf kind (boundaries of every power of two and ten, every ASCII
+/// character, calendar and sub-second boundaries, ...)
+pub fn leaf_sweep(l: Leaf) -> Vec<Val> {
+    let mut out = vec![];
+    match l {
+        Leaf::I32 => {
+            let mut xs: Vec<i64> = vec![0];
+            for k in 0..31 {
+                for d in [-1i64, 0, 1] {
+                    xs.push((1i64 << k) + d);
+                    xs.push(-(1i64 << k) + d);
+                }
+            }
+            let mut p = 1i64;
+            while p < i32::MAX as i64 {
+                xs.extend([p - 1, p, p + 1, -p - 1, -p, -p + 1]);
+                p *= 10;
+            }
+            xs.extend([i32::MAX as i64, i32::MIN as i64]);
+            xs.sort();
+            xs.dedup();
+            out.extend(xs.into_iter().filter(|x| *x >= i32::MIN as i64 && *x <= i32::MAX as i64).map(|x| Val::I32(x as i32)));
+        }
+        Leaf::I64 => {
+            let max = (1i64 << 53) - 1;
+            let mut xs: Vec<i64> = vec![0, max, -max];
+            for k in 0..53 {
+                for d in [-1i64, 0, 1] {
+                    xs.push((1i64 << k) + d);
+                    xs.push(-(1i64 << k) + d);
+                }
+            }
+            let mut p = 1i64;
+            while p < max {
+                xs.extend([p - 1, p, p + 1, -p - 1, -p, -p + 1]);
+                p *= 10;
+            }
+            xs.sort();
+            xs.dedup();
+            out.extend(xs.into_iter().filter(|x| x.abs() <= max).map(Val::I64));
+        }
+        Leaf::Str => {
+            for c in (0u32..128).chain([0x80, 0xff, 0x100, 0x7ff, 0x800, 0xd7ff, 0xe000, 0xfffd, 0xffff, 0x10000, 0x10ffff, 0x2028, 0x2029, 0xfeff]) {
+                if let Some(ch) = char::from_u32(c) {
+                    out.push(Val::Str(ch.to_string()));
+                    out.push(Val::Str(format!("a{}b", ch)));
+                }
+            }
+            for s in ["null", "false", "-0", "1e5", "Infinity", "-Infinity", "0x10", " lead", "trail ", "\\u0041", "\\", "\\\"", "{}", "[]", "/", "\u{0}\u{0}"] {
+                out.push(Val::Str(s.to_string()));
+            }
+        }
+        Leaf::Uuid => {
+            for k in 0..16u32 {
+                let nib = k as u128;
+                let mut v = 0u128;
+                for i in 0..32 {
+                    v |= ((nib + i as u128) % 16) << (4 * i);
+                }
+                out.push(Val::Uuid(v));
+            }
+            out.extend([Val::Uuid(1), Val::Uuid(1 << 127), Val::Uuid(0x8000_0000_0000_0000), Val::Uuid(0xffff_ffff_0000_0000_0000_0000_0000_0000)]);
+        }
+        Leaf::DateTime => {
+            // year 0000, 0001, 1582, 1969/1970 boundary, a leap day, 2038, 9999; sub-second boundaries
+            let secs = [-62167219200i64, -62135596800, -12219292800, -86400, -1, 0, 1, 951782400, 951868799, 2147483647, 2147483648, 4102444800, 253402300799];
+            let nanos = [0u32, 1, 999, 1000, 999_999, 1_000_000, 100_000_000, 123_456_789, 999_999_999];
+            for sct in secs {
+                for n in nanos {
+                    out.push(Val::DateTime(sct, n));
+                }
+            }
+        }
+        Leaf::Rid => {
+            for r in ["ri.a..b.c", "ri.a.0.b.c", "ri.a-b.c-d.e-f.G_h.-", "ri.a1.1a.b2.3", "ri.s.i.t.l.o.c.a.t.o.r", "ri.service.instance.type.locator-with_all.Chars-09AZ", "ri.x.y.z.-", "ri.x.y.z._", "ri.x.y.z.."] {
+                out.push(Val::Rid(r.to_string()));
+            }
+        }
+        Leaf::Token => {
+            for t in ["a", "0", "-", ".", "_", "~", "+", "/", "a=", "a==", "a===", "AZaz09-._~+/=", "eyJhbGciOiJIUzI1NiJ9.e30.x-y_z"] {
+                out.push(Val::Token(t.to_string()));
+            }
+        }
+        _ => {}
+    }
+    out
+}
+
 const MANTISSAS: [u64; 16] = [
     0, 1, 2, 3, 0xF_FFFF_FFFF_FFFF, 0xF_FFFF_FFFF_FFFE, 0x8_0000_0000_0000, 0x5_5555_5555_5555, 0xA_AAAA_AAAA_AAAA, 0x1_2345_6789_ABCD, 0x3_243F_6A88_85A3, 0xB_7E15_1628_AED2, 0x9_E377_9B97_F4A7, 0x6_A09E_667F_3BCD,
     0x7_FFFF_FFFF_FFFF, 0x0_0000_0000_FFFF,
@@ -465,6 +553,19 @@ pub fn run(args: &Args) -> Report {
     report.extra.insert("double_grid_cases".into(), json!(dbl.states));
     report.merge(dbl);
 
+    // dense per-leaf sweeps (the shape space multiplies small alphabets; these are wide ones at
+    // the two shapes where the text form matters: as a value and as a map key)
+    let mut sweep = Report::new("C01", "model_checking");
+    for l in CONJURE_LEAVES {
+        for (i, v) in leaf_sweep(l).into_iter().enumerate() {
+            let tag = json!({"kind": "leaf-sweep", "leaf": format!("{:?}", l), "n": i, "class": format!("{:?}", l).to_lowercase()});
+            check_case_tagged(&Shape::Leaf(l), &v, &mut sweep, Some(&tag));
+            check_case_tagged(&Shape::Map(l, Box::new(Shape::Leaf(l))), &Val::Map(vec![(v.clone(), v.clone())]), &mut sweep, Some(&tag));
+        }
+    }
+    report.extra.insert("leaf_sweep_cases".into(), json!(sweep.states));
+    report.merge(sweep);
+
     // informational: serde shapes outside the Conjure model (never verdict-bearing)
     let mut info = Report::new("C01", "model_checking");
     for l in [Leaf::F32, Leaf::I128, Leaf::U128, Leaf::Char, Leaf::U64] {
@@ -501,6 +602,18 @@ fn replay(path: &str, mut report: Report) -> Report {
     // the case is identified by its shape text; re-run every value of that shape
     let v = vcommon::load_replay(path);
     if let Some(t) = v["case"].get("size_case") {
+        if t["kind"] == "leaf-sweep" {
+            for l in CONJURE_LEAVES {
+                if format!("{:?}", l) == t["leaf"].as_str().unwrap_or("") {
+                    if let Some(x) = leaf_sweep(l).into_iter().nth(t["n"].as_u64().unwrap_or(0) as usize) {
+                        check_case_tagged(&Shape::Leaf(l), &x, &mut report, Some(t));
+                        check_case_tagged(&Shape::Map(l, Box::new(Shape::Leaf(l))), &Val::Map(vec![(x.clone(), x.clone())]), &mut report, Some(t));
+                    }
+                }
+            }
+            report.exhaustive = false;
+            return report;
+        }
         if t["kind"] == "f64-bits" {
             let x = f64::from_bits(t["n"].as_u64().unwrap_or(0));
             check_case_tagged(&Shape::Leaf(Leaf::F64), &Val::F64(x), &mut report, Some(t));
